@@ -23,6 +23,7 @@ import (
 	sdkmetric "go.opentelemetry.io/otel/sdk/metric"
 	"go.opentelemetry.io/otel/sdk/metric/metricdata"
 	"go.opentelemetry.io/otel/sdk/resource"
+	"go.opentelemetry.io/otel/trace"
 
 	"verifharness/vf"
 )
@@ -876,7 +877,16 @@ func runScopes(k *vf.Case) {
 		var opts []metric.MeterOption
 		opts = append(opts, metric.WithInstrumentationVersion(ver), metric.WithSchemaURL(schema))
 		if r.Chance(3, 4) {
-			opts = append(opts, metric.WithInstrumentationAttributes(attribute.String("tenant", tenant)))
+			kvs := []attribute.KeyValue{attribute.String("tenant", tenant)}
+			if r.Chance(1, 3) {
+				// scope attributes whose keys are, or sanitise to, the labels the exporter adds itself (the
+				// exporter's own value wins; the tenant is made unique so that the scopes stay distinct then)
+				tenant = fmt.Sprintf("u%d", i)
+				kvs[0] = attribute.String("tenant", tenant)
+				kvs = append(kvs, attribute.String(vf.Pick(r, []string{"otel_scope_name", "otel.scope.name", "otel_scope_version", "otel.scope.version"}), "from-attribute"))
+				k.C.Count("scope_cases_with_reserved_label_attributes", 1)
+			}
+			opts = append(opts, metric.WithInstrumentationAttributes(kvs...))
 		} else {
 			tenant = ""
 		}
@@ -1050,6 +1060,57 @@ func runExpo(k *vf.Case) {
 	k.C.Sig(fmt.Sprintf("expo|%d|%d", profile, want.Scale))
 }
 
+// runExemplars: measurements made under a sampled span carry exemplars; with an attribute filter the dropped
+// attributes travel as exemplar labels, and Prometheus refuses exemplars whose labels exceed 128 runes. Such a
+// series must be exposed without the exemplar - not crash the scrape.
+func runExemplars(k *vf.Case) {
+	r := k.R
+	reg := prometheus.NewRegistry()
+	exp, err := otelprom.New(otelprom.WithRegisterer(reg))
+	if err != nil {
+		k.Violate("exporter-constructor-error", "", err.Error(), nil)
+		return
+	}
+	mp := sdkmetric.NewMeterProvider(sdkmetric.WithReader(exp),
+		sdkmetric.WithView(sdkmetric.NewView(sdkmetric.Instrument{Name: "*"}, sdkmetric.Stream{AttributeFilter: attribute.NewAllowKeysFilter("keep")})))
+	m := mp.Meter("ex")
+	c, _ := m.Int64Counter("requests")
+	h, _ := m.Float64Histogram("latency")
+	sc := trace.NewSpanContext(trace.SpanContextConfig{TraceID: trace.TraceID{1, 2, 3}, SpanID: trace.SpanID{4, 5}, TraceFlags: trace.FlagsSampled})
+	ctx := trace.ContextWithSpanContext(context.Background(), sc)
+	long := r.ASCIIFrom("abcdefghij/", vf.Pick(r, []int{10, 60, 64, 65, 66, 200, 1000}))
+	n := 1 + r.Intn(5)
+	for i := 0; i < n; i++ {
+		o := metric.WithAttributes(attribute.String("keep", "a"), attribute.String("url", long), attribute.Int("i", i))
+		c.Add(ctx, 1, o)
+		h.Record(ctx, 12.5, o)
+	}
+	var mfs []*dto.MetricFamily
+	var gerr error
+	if !k.Guard("panic-in-gather", "exemplars", func() { mfs, gerr = reg.Gather() }) {
+		return
+	}
+	if gerr != nil {
+		k.Violate("gather-error", "exemplars", gerr.Error(), nil)
+		return
+	}
+	var gotC, gotH bool
+	for _, mf := range mfs {
+		switch mf.GetName() {
+		case "requests_total":
+			gotC = len(mf.Metric) == 1 && mf.Metric[0].GetCounter().GetValue() == float64(n)
+		case "latency":
+			gotH = len(mf.Metric) == 1 && mf.Metric[0].GetHistogram().GetSampleCount() == uint64(n)
+		}
+	}
+	if !gotC || !gotH {
+		k.Violate("series-value", "instrument with exemplars", fmt.Sprintf("exemplar label of %d characters: counter exposed correctly=%v, histogram exposed correctly=%v", len(long), gotC, gotH), nil)
+	}
+	mp.Shutdown(context.Background())
+	k.C.Count("exemplar_cases", 1)
+	k.C.Sig(fmt.Sprintf("exemplars|%d", len(long)))
+}
+
 func main() {
 	for i, a := range os.Args {
 		if a == "--replay" && i+1 < len(os.Args) {
@@ -1072,6 +1133,8 @@ func main() {
 		c.Isolated("concurrent", c.N(160, 2000), vf.IsoOpts{Batch: 10, Par: 16}, runConcurrent)
 		c.Isolated("scopes", c.N(400, 6000), vf.IsoOpts{Batch: 50, Par: 16}, runScopes)
 		c.Isolated("expo", c.N(600, 8000), vf.IsoOpts{Batch: 60, Par: 16}, runExpo)
+		c.Isolated("exemplars", c.N(300, 4000), vf.IsoOpts{Batch: 50, Par: 16}, runExemplars)
+		c.Floor("exemplar_cases", 150)
 		c.Floor("expo_cases", 300)
 		c.Floor("expo_cases_with_negative_buckets", 50)
 		c.Floor("scope_cases", 200)
